@@ -50,7 +50,8 @@ func (c10) Info() core.Info {
 		Title: "Scalar functions and list/JSON indexing compute their documented values",
 		Level: "exploration",
 		Rule: "probe expressions applying each documented scalar function (upper, lower, strlen, str, int, float, is_int, is_float, split, join, len, list, int_list/ilist, float_list/flist, l2_distance, cosine_distance, json) and [n] / [name] indexing chains (to depth 3, on every list representation) to arguments read from key/value; stores rotate a 6-key x 12-value text pool (all 72 (key,value) argument pairs), plus JSON-document stores; every probe is evaluated (a) row-dependent as a select field over the whole store, (b) with each pair's arguments substituted as constants (the constant-folding path), (c) as a WHERE outcome `probe = expected` / Boolean probe, in row mode and batch mode (B in {1,2,32}); different-length vectors must be refused with an error. " +
-			"Oracle: an independent re-implementation of each function from its README one-liner (DESIGN.md §3.2); floats compared to 1e-12. Non-trivial: the probe is in the reference's domain on the pair and yields a non-empty / non-zero / true value. Distinct: (probe, form, store, mode, B).",
+			"Oracle: an independent re-implementation of each function from its README one-liner (DESIGN.md §3.2); floats compared to 1e-12. Non-trivial: the probe is in the reference's domain on the pair and yields a non-empty / non-zero / true value. Distinct: (probe, form, store, mode, B)." +
+			" Also: JSON documents wrapped in and spread out by blanks, tabs and line ends; numeric text inside list() (kept as text or read as a number: only float() / int() of an element and len of the list are judged).",
 		Assumptions: []string{"substr and quantile are not in the property's list (left to C03/C06)", "negative integer results are not used as WHERE literals (the language has no unary minus)", "upper/lower are judged on ASCII text only"},
 	}
 }
